@@ -423,8 +423,12 @@ inline void initStripeState(
       stripeEnd = end;
     } else {
       Wide perStripe = totalRange / static_cast<Wide>(numWorkers);
-      Wide endWide = static_cast<Wide>(start) + static_cast<Wide>(i + 1) * perStripe;
-      stripeEnd = alignDownStripe(static_cast<IntegerT>(endWide), state.granularity);
+      // Align the stripe boundary to a multiple of granularity relative to `start` (not to an absolute multiple),
+      // so that every stripe, and hence every chunk claimed from it, is a whole number of granules.
+      Wide stripeOffset =
+          alignDownStripe(static_cast<Wide>(static_cast<Wide>(i + 1) * perStripe), state.granularity);
+      Wide endWide = static_cast<Wide>(start) + stripeOffset;
+      stripeEnd = static_cast<IntegerT>(endWide);
       if (stripeEnd <= cursor) {
         stripeEnd = cursor;
       }
